@@ -6,7 +6,7 @@
    algorithm, .changes file lines).  A changed or dropped tag makes the corresponding lemma fail to compile. *)
 From Coq Require Import List Ascii String Bool Arith NArith ZArith Lia.
 Require Import SchemaDefs Schema_gen.
-Require GS R2 L10 L12 L13 ACC C9G CX.
+Require GS R2 L10 L12 L13 ACC C9G CX CX2.
 Import ListNotations.
 
 Lemma C10_dsc_schema_ok : schema_ok dsc_schema dsc_table = true.
@@ -48,6 +48,17 @@ Theorem C10_lines_field : forall (dl : ascii) (st : ascii -> bool) w1 es w2, L10
   Forall (L12.line_ok dl st) es -> L10.decode_list dl st (w1 ++ GS.join [dl] es ++ w2) = es.
 Proof. exact L12.C10_lines_field. Qed.
 Print Assumptions C10_lines_field.
+
+(* for a field whose REGENERATED descriptor says: slice of strings, delimiter d (not a blank), strip set S, the
+   executed decoder is exactly L10.decode_list d S - the function of the list theorems; instance: DSC.Binaries *)
+Theorem C10_schema_row_decoder : forall (f : CX.fd) (d : ascii) t,
+  has_delim f = true -> delim f = [d] -> d <> " "%char ->
+  CX.decode_kind f (KSlice KString) t = Some (CX.XList (map CX.XS (L10.decode_list d (CX.in_set (strip f)) t))).
+Proof. exact CX2.CX_slice_of_strings. Qed.
+Theorem C10_dsc_binaries_decoder : exists f, find_field dsc_schema (s "Binaries") = Some f /\ key f = s "Binary" /\
+  forall t, CX.decode_kind f (kind f) t = Some (CX.XList (map CX.XS (L10.decode_list ","%char (CX.in_set (strip f)) t))).
+Proof. exact CX2.dsc_binaries_decoder. Qed.
+Print Assumptions C10_schema_row_decoder.
 
 (* composition with the reader: a comma-separated list FOLDED over continuation lines ("Binary: a,\n b,\n c").
    C07_field_value says the reader's value for such a field is read_conts (first line) (continuation lines); the
